@@ -64,6 +64,14 @@ CLAIMED = {
                 note="Trusted: CrossHair, z3, in-memory FS and path/struct models in vf/stubs/vpkmodel.py (self-tested each run); zlib.crc32 real, so payload "
                      "bytes are concrete with solver-chosen lengths. Large payloads as symbols, CRC collisions, VPK v2 are outside.",
                 technique=_E1),
+    "C05": dict(engine="fpk+symx+chx", category="other",
+                text="Range: every store to an Angle field in math.py is found by ast and translated to a Float64 term (Python % by the fmod contract); z3 "
+                     "proves 0 <= value < 360 for ALL finite doubles at every site, which gives the invariant after any history by induction. Frozen/copies: "
+                     "74 operator/method applications on frozen operands run on symbolic reals and z3 proves the operand unchanged; copy/freeze/thaw "
+                     "independence likewise. Text: format_float/str/join run under CrossHair on a model float whose '%.6f' output is solver-chosen.",
+                note="Trusted: z3 FP theory and nlsat, the fmod contract and the atan2 range abstraction, the ast scanner (stores via setattr would make it "
+                     "inconclusive), ModelFloat's formatter contract. NaN/inf, decimal<->binary conversion in C, parse_vec_str and the Cython twins are outside.",
+                technique="per-write-site SMT floating-point queries generated from the current source (ast -> z3 Float64); real operators on z3 Real terms; CrossHair for text"),
 }
 _TODO = "check not built yet in this round (planned: see DESIGN.md section 3)"
 NOT_APPLICABLE = {f"C{i:02d}": _TODO for i in range(1, 21) if f"C{i:02d}" not in CLAIMED}
